@@ -26,6 +26,7 @@ import (
 
 	"github.com/storacha/go-ucanto/client"
 	"github.com/storacha/go-ucanto/core/car"
+	tcar "github.com/storacha/go-ucanto/transport/car"
 	"github.com/storacha/go-ucanto/core/delegation"
 	"github.com/storacha/go-ucanto/core/invocation"
 	"github.com/storacha/go-ucanto/core/ipld"
@@ -634,7 +635,9 @@ func init() {
 		if err := bytesC20(o, e); err != nil {
 			return err
 		}
+		codecViol, codecRuns := c20ConfiguredCodec(e)
 		return writeJSON(o.out, "stats.json", map[string]any{
+			"configured_codec_violations": codecViol, "configured_codec_requests": codecRuns,
 			"product": nprod, "random": nrand, "content_types": len(c20CTs), "accepts": len(c20Accs), "bodies": bodies,
 			"status_histogram": hist, "by_body": byBody, "files": files, "samples": samples,
 			"client_cases": len(chans), "client_histogram": chist, "client": chans, "inner_handler_calls": e.inner.Load(),
@@ -699,4 +702,114 @@ func init() {
 		fmt.Println(string(js))
 		return 0
 	}
+}
+
+// ---------------------------------------------------------------------------
+// A server configured with its OWN inbound codec (server.WithInboundCodec): the codec decides.  The
+// codec below refuses, with 412 and its own header, every request that lacks the X-Tenant header and
+// hands the rest to the CAR codec.  A refused request must be answered with the codec's status and run
+// nothing; a request it lets through must be answered as the stock server answers it.
+
+type c20TenantCodec struct {
+	inner transport.InboundCodec
+	calls *atomic.Int64
+}
+
+func (c c20TenantCodec) Accept(req transport.HTTPRequest) (transport.InboundAcceptCodec, transport.HTTPError) {
+	c.calls.Add(1)
+	if req.Headers().Get("X-Tenant") == "" {
+		hd := http.Header{}
+		hd.Set("X-Tenant-Required", "1")
+		return nil, thttp.NewHTTPError("a tenant header is required", http.StatusPreconditionFailed, hd)
+	}
+	return c.inner.Accept(req)
+}
+
+func c20ConfiguredCodec(e *c20Env) (viol []map[string]any, runs int) {
+	calls, consulted := &atomic.Int64{}, &atomic.Int64{}
+	srv, err := server.NewServer(e.service,
+		server.WithInboundCodec(c20TenantCodec{inner: tcar.NewCARInboundCodec(), calls: consulted}),
+		server.WithServiceMethod("test/echo", func(inv invocation.Invocation, ctx server.InvocationContext) (transaction.Transaction[ok.Unit, ipld.Builder], error) {
+			calls.Add(1)
+			return transaction.NewTransaction(result.Ok[ok.Unit, ipld.Builder](ok.Unit{})), nil
+		}),
+		server.WithServiceMethod("test/raw", func(inv invocation.Invocation, ctx server.InvocationContext) (transaction.Transaction[ok.Unit, ipld.Builder], error) {
+			calls.Add(1)
+			return transaction.NewTransaction(result.Ok[ok.Unit, ipld.Builder](ok.Unit{})), nil
+		}),
+		server.WithErrorHandler(func(err server.HandlerExecutionError[any]) {}),
+	)
+	if err != nil {
+		return []map[string]any{{"what": "NewServer with WithInboundCodec failed: " + err.Error()}}, 0
+	}
+	bad := func(what string, bi int, hdr http.Header, extra map[string]any) {
+		m := map[string]any{"what": what, "body": e.bodies[bi].Name, "body_hex": fmt.Sprintf("%x", e.bodies[bi].Bytes), "headers": hdr}
+		for k, v := range extra {
+			m[k] = v
+		}
+		viol = append(viol, m)
+	}
+	for bi := range e.bodies {
+		for _, ct := range []string{car.ContentType, "application/json", ""} {
+			for _, acc := range []string{car.ContentType, "*/*", "text/html", ""} {
+				for _, tenant := range []string{"", "t1"} {
+					hdr := http.Header{}
+					if ct != "" {
+						hdr.Set("Content-Type", ct)
+					}
+					if acc != "" {
+						hdr.Set("Accept", acc)
+					}
+					if tenant != "" {
+						hdr.Set("X-Tenant", tenant)
+					}
+					runs++
+					before, cbefore := calls.Load(), consulted.Load()
+					var res transport.HTTPResponse
+					var rerr error
+					if p := recovered(func() { res, rerr = srv.Request(thttp.NewHTTPRequest(bytes.NewReader(e.bodies[bi].Bytes), hdr.Clone())) }); p != nil {
+						bad(fmt.Sprintf("server.Request panicked: %v", p), bi, hdr, nil)
+						continue
+					}
+					if rerr != nil || res == nil {
+						// let through: the stock server may return the same error (a message naming a block that did not travel)
+						same := false
+						if tenant != "" {
+							recovered(func() {
+								ref, referr := e.srv.Request(thttp.NewHTTPRequest(bytes.NewReader(e.bodies[bi].Bytes), hdr.Clone()))
+								same = (referr != nil || ref == nil) && calls.Load() == before
+							})
+						}
+						if !same {
+							bad(fmt.Sprintf("server.Request returned an error instead of a response: %v", rerr), bi, hdr, nil)
+						}
+						continue
+					}
+					ran := calls.Load() - before
+					if consulted.Load() == cbefore {
+						bad("the configured inbound codec was not consulted", bi, hdr, map[string]any{"status": res.Status()})
+					}
+					if tenant == "" {
+						if res.Status() != http.StatusPreconditionFailed || ran != 0 {
+							bad(fmt.Sprintf("the configured codec refuses this request with 412; the server answered %d and ran %d handler(s)", res.Status(), ran), bi, hdr,
+								map[string]any{"status": res.Status(), "handler_calls": ran})
+						}
+						continue
+					}
+					// let through: the stock server's answer to the same request
+					sb := e.calls.Load()
+					var ref transport.HTTPResponse
+					if p := recovered(func() { ref, _ = e.srv.Request(thttp.NewHTTPRequest(bytes.NewReader(e.bodies[bi].Bytes), hdr.Clone())) }); p != nil || ref == nil {
+						continue
+					}
+					sran := e.calls.Load() - sb
+					if ref.Status() != res.Status() || sran != ran {
+						bad(fmt.Sprintf("a request the configured codec hands to the CAR codec is answered %d with %d handler call(s); the stock server answers %d with %d", res.Status(), ran, ref.Status(), sran),
+							bi, hdr, map[string]any{"status": res.Status(), "handler_calls": ran})
+					}
+				}
+			}
+		}
+	}
+	return viol, runs
 }
